@@ -518,7 +518,8 @@ class CircuitHarness:
 def run(run: Run):
     depth = 8 if run.tier == "quick" else 10
     devb = 3 if run.tier == "quick" else 4
-    run.rule = ("explicit-state BFS over {S, G(1|2), O(n), I} on the real InjectionTracker with window maxlen in {1,2,3}, plus a second "
+    run.rule = ("[+ closed-form schedules of W+70 rounds of send/inject with resends and gaps on windows W in LONG_WINDOWS (65..257, thorough to 2049), same oracle] "
+                "explicit-state BFS over {S, G(1|2), O(n), I} on the real InjectionTracker with window maxlen in {1,2,3}, plus a second "
                 "search over {S, S-first-sight-RESENT, G, O(n), O(n)-RESENT, I, I-that-fails-to-serialize, D(rop), T(ake+reinject), DO(n)} on a real ProxiedCircuit "
                 "(tracker window 2 and 10000 with the endpoint numbering from 1, window 2 numbering from 0) observing packet ids on the captured datagrams and, in every state, the acks that reach the viewer for "
                 "every ordered list of up to 3 of the newest 3 (thorough: 4) wire ids acknowledged by an inbound packet (appended / PacketAck body / "
@@ -558,9 +559,73 @@ def run(run: Run):
                 small = explore._minimise_tuples(h, hist, v["clause"], v["site"])
                 v["witness"] = {"seam": kind, "maxlen": maxlen, "base": base, "history": [list(e) for e in small]}
                 break
+    from hmc.core import pmap
+    for d in pmap(_long_worker, list(LONG_WINDOWS[run.tier]), run.jobs):
+        run.merge(d)
+    run.coverage_extra["long_windows"] = list(LONG_WINDOWS[run.tier])
+
+
+# ---- large windows: closed-form schedules that fill a window of W injections and run past its eviction point ----------------
+LONG_WINDOWS = {"quick": (65, 100, 129, 257), "thorough": (65, 100, 129, 257, 513, 1025, 2049)}
+
+
+def long_schedule(W: int) -> List[Tuple[tuple, bool]]:
+    """[(event, evaluate the oracle after it)]: W + 70 rounds of [S, I], every 8th round also a resend O(n) of a recent and of an old id and
+    a gap G(1).  The oracle runs on every 16th round while the window fills and after every event from round W - 4 on (eviction starts at
+    round W + 1)."""
+    out: List[Tuple[tuple, bool]] = []
+    sent = 0
+    for r in range(1, W + 71):
+        dense = r >= W - 4 or r % 16 == 0
+        out.append((("S",), False))
+        sent += 1
+        out.append((("I",), dense))
+        if r % 8 == 0:
+            out.append((("O", max(1, sent - 2)), False))
+            out.append((("O", max(1, sent // 2)), False))
+            out.append((("G", 1), dense))
+            sent += 2
+    return out
+
+
+def long_case(W: int) -> List[Dict[str, Any]]:
+    h = Harness(W)
+    w = h.fresh()
+    real_oracle = h.oracle
+    flag = {"on": False}
+    h.oracle = lambda ww: real_oracle(ww) if flag["on"] else None
+    hist = []
+    for ev, check in long_schedule(W):
+        flag["on"] = check
+        hist.append(ev)
+        h.step(w, ev)
+        if w.violations:
+            break
+    seen, out = set(), []
+    for v in w.violations:
+        if (v["clause"], v["site"]) not in seen:
+            seen.add((v["clause"], v["site"]))
+            out.append(dict(v, site=v["site"] + f":window={W}", steps=len(hist)))
+    return out
+
+
+def _long_worker(W: int):
+    from hmc.core import Part
+    import logging
+    logging.disable(logging.WARNING)   # the tracker warns about every resend of an id below the window
+    part = Part()
+    part.count("evaluations")
+    part.count("long_window_schedules")
+    for v in long_case(W):
+        part.violation(v["clause"], v["site"], {"seam": "long", "maxlen": W, "steps": v["steps"]}, v["detail"])
+    part.mark_nontrivial(("long-window", W))
+    part.outcome(("long-window", W))
+    return part.dump()
 
 
 def replay(witness):
+    if witness.get("seam") == "long":
+        return long_case(int(witness["maxlen"]))
     if witness.get("seam") == "circuit":
         return explore.replay_history(CircuitHarness(int(witness.get("maxlen", 2)), base=int(witness.get("base", 1))), witness["history"])
     h = Harness(int(witness.get("maxlen", 3)))
